@@ -10,7 +10,7 @@ META = {
     "technique": "CrossHair (z3) exploration of (a) API histories after a commit on the real IH5Record/IH5MFRecord over an in-memory file system with a byte-level frame oracle for every committed container and manifest sidecar, and (b) the one-write-step obligation of the overlay harness (write routing into the newest container only)",
     "explanation": "bounded symbolic exploration (action choices realised by solver-driven branching); exhaustive within the stated bounds",
     "bounds": {
-        "quick": {"frames": "4 on-disk situations x every sequence of 3 actions out of 18 (reopen r/r+/a/x/w-/bogus, create_patch, write, delete, attr, commit, discard, close, close(commit=False), merge, open explicit list reversed, read, copy) x {IH5Record, IH5MFRecord}",
+        "quick": {"frames": "4 on-disk situations x every sequence of 3 actions out of 21 (reopen r/r+/a/x/w-/bogus, writable open of a strict prefix of the chain, merge onto an existing record name, double commit, create_patch, write, delete, attr, commit, discard, close, close(commit=False), merge, open explicit list reversed, read, copy) x {IH5Record, IH5MFRecord}",
                   "W": "one write step from every 2-container stack over universe {a, a/x, attr a@k}: no older container changes"},
         "thorough": {"frames": "sequences of 4 actions"},
     },
@@ -19,6 +19,8 @@ META = {
     "stubs": ["numpy.cumproduct import shim", "fakeh5 substrate + in-memory FS (vt.substrate)", "uuid1 counter", "pydantic copy run natively"],
     "assumptions": ["substrate fidelity (conformance-tested)", "SHA-256 idealised as injective on write histories"],
 }
+
+SERIAL_TRIAGE = True  # confirm() uses in-process substrate state (history search)
 
 
 def prechecks(tier):
@@ -30,7 +32,7 @@ def plan(tier, seed):
     k = 3 if tier == "quick" else 4
     ob = "after every step every committed container and manifest sidecar is byte-identical; every file set that existed after a commit still opens and shows that state"
     for c in ("ih5", "mf"):
-        for first in range(18):
+        for first in range(21):
             parts.append(Part(H, "frames", {"cls": c, "k": k, "first": first}, 900 if tier == "quick" else 6000, 120, ob, weight=2))
     keep = {"setitem", "delitem", "attr_set", "attr_del", "create_group", "create_dataset", "copy", "move", "copy_into_patch", "ds_write", "require_group"}
     for p in C1.w_parts("quick"):
